@@ -309,3 +309,51 @@ def is_immutable_scalar(e: Optional[ast.AST]) -> bool:
     if isinstance(e, ast.JoinedStr):
         return True
     return False
+
+
+# ------------------------------------------------------------------------------------------------------------------
+# module-level mutable objects that functions of the module write into (process-wide memos)
+# ------------------------------------------------------------------------------------------------------------------
+
+def module_mutable_globals(tree: ast.Module) -> Set[str]:
+    """Names bound at module level to a list/dict/set display or constructor call (incl. annotated assignments)."""
+    out: Set[str] = set()
+    for n in tree.body:
+        vals = []
+        if isinstance(n, ast.Assign):
+            vals = [(t, n.value) for t in n.targets]
+        elif isinstance(n, ast.AnnAssign) and n.value is not None:
+            vals = [(n.target, n.value)]
+        for t, v in vals:
+            if isinstance(t, ast.Name) and (isinstance(v, (ast.List, ast.Dict, ast.Set, ast.ListComp, ast.DictComp, ast.SetComp)) or (
+                    isinstance(v, ast.Call) and isinstance(v.func, ast.Name) and v.func.id in ("list", "dict", "set", "OrderedDict", "defaultdict"))):
+                out.add(t.id)
+    return out
+
+
+def module_global_writes(f: ast.AST, names: Set[str]) -> List[Tuple[ast.AST, str, str]]:
+    """[(node, global name, how)]: item stores / deletes / mutator calls / 'global' rebinding of a module-level mutable object in f
+    (a local of the same name shadows it)."""
+    locs = local_names(f)
+    declared_global: Set[str] = set()
+    for n in ast.walk(f):
+        if isinstance(n, ast.Global):
+            declared_global |= set(n.names)
+    visible = {g for g in names if g not in locs or g in declared_global}
+    out: List[Tuple[ast.AST, str, str]] = []
+    for n in ast.walk(f):
+        if isinstance(n, (ast.Assign, ast.AnnAssign, ast.AugAssign)):
+            targets = n.targets if isinstance(n, ast.Assign) else [n.target]
+            for t in targets:
+                if isinstance(t, ast.Subscript) and isinstance(t.value, ast.Name) and t.value.id in visible:
+                    out.append((n, t.value.id, "item store"))
+                if isinstance(t, ast.Name) and t.id in declared_global and t.id in names:
+                    out.append((n, t.id, "rebinding through 'global'"))
+        elif isinstance(n, ast.Delete):
+            for t in n.targets:
+                if isinstance(t, ast.Subscript) and isinstance(t.value, ast.Name) and t.value.id in visible:
+                    out.append((n, t.value.id, "item delete"))
+        elif isinstance(n, ast.Call) and isinstance(n.func, ast.Attribute) and n.func.attr in MUTATORS \
+                and isinstance(n.func.value, ast.Name) and n.func.value.id in visible:
+            out.append((n, n.func.value.id, "%s()" % n.func.attr))
+    return out
